@@ -57,5 +57,18 @@ def register(GROUPS, c2g, incs, REPO, HERE, STRUCTS, Group):
         st = c2g.select_between(F, src, r"peer = me \^ length2;", r"SC_ASSERT \(peer >= 0 \|\| peer2 == -1\)")
         t, i = c2g.translate_block(st, "binary_peers", [], ["peer", "peer2"], fname="binary", free_params=True)
         g.add(t, i)
-        return g, [f]
+        # tag and half length of a level of the binary recursion; SC_LOG2_32 expands to lookups in sc_log2_lookup_table
+        fsc = os.path.join(REPO, "src", "sc.c")
+        tobjs = c2g.clang_ast(fsc, "sc_log2_lookup_table", incs(tmp))
+        t, i = c2g.translate_table(c2g.find_var(tobjs, "sc_log2_lookup_table"), "notify_log2_table")
+        g.add(t, i)
+        st = c2g.select_between(F, src, r"tag = SC_TAG_NOTIFY_RECURSIVE \+ SC_LOG2_32 \(length\);", r"SC_ASSERT \(start <= me && me < start \+ length && me < groupsize\)")
+        t, i = c2g.translate_block(st, "binary_tag", [], ["tag", "length2"], fname="binary", free_params=True, tables={"sc_log2_lookup_table": "notify_log2_table"})
+        g.add(t, i)
+        # length of the top level: next power of two
+        F = fn("sc_notify")
+        st = c2g.select_between(F, src, r"pow2length = SC_ROUNDUP2_32 \(mpisize\);", r"SC_ASSERT \(num_receivers >= 0\)")
+        t, i = c2g.translate_block(st, "binary_pow2length", [], ["pow2length"], fname="binary", free_params=True, tables={"sc_log2_lookup_table": "notify_log2_table"})
+        g.add(t, i)
+        return g, [f, fsc]
     GROUPS["NotifyC01"] = gen_notify
